@@ -93,6 +93,9 @@ func (fr *frame) get(key ssa.Value) value {
 		// lazily create globals of packages whose init we do not run
 		p := new(value)
 		*p = zero(key.Type().(*types.Pointer).Elem())
+		if key.Pkg != nil && key.Pkg.Pkg.Path() == "golang.org/x/text/encoding/simplifiedchinese" && key.Name() == "GBK" {
+			*p = iface{t: gbkT, v: "GBK"}
+		}
 		fr.e.globals[key] = p
 		return p
 	}
@@ -297,6 +300,13 @@ func prepareCall(fr *frame, call *ssa.CallCommon) (fn value, args []value) {
 		recv := v.(iface)
 		if recv.t == nil {
 			fr.e.rtPanic("method value: interface conversion: interface is nil")
+		}
+		if recv.t == gbkT && call.Method.Name() == "NewDecoder" {
+			return nativeFn(func([]value) value {
+				p := new(value)
+				*p = &native{desc: "gbk-decoder"}
+				return p
+			}), nil
 		}
 		if recv.t == errorT || recv.t == fr.e.runtimeErrT {
 			if call.Method.Name() == "Error" {
